@@ -74,27 +74,49 @@ pub fn run(job: &Value, t: &mut Trace) -> usize {
         // the frames
         let mut frames: Vec<Written> = vec![];
         let mut ok = true;
-        for f in a["frames"].as_array().unwrap() {
-            let rate = f["rate"].as_u64().unwrap() as u32;
-            let ch = f["channels"].as_u64().unwrap() as u8;
-            let bps = f["bps"].as_u64().unwrap() as u32;
-            let len = f["len"].as_u64().unwrap() as usize;
-            let mut r2 = Rng::new(f["seed"].as_u64().unwrap_or(1));
-            let samples = gen_pcm(f["signal"].as_str().unwrap_or("walk"), &mut r2, ch as usize, bps, len);
-            let mut out = vec![];
-            let res = catch(|| {
-                // one writer per frame: every frame starts a stream of its own (frame number 0)
-                let mut w = FlacStreamWriter::new(&mut out, stream_options(a["id"].as_u64().unwrap_or(0)));
-                w.write(rate, ch, bps, &samples).map_err(|e| e.to_string())
-            });
-            match res {
-                Ok(Ok(())) => frames.push(Written { bytes: out, samples, rate, channels: ch, bps }),
-                other => {
-                    t.emit(json!({"ev": "writefail", "id": a["id"], "why": format!("{:?}", other.map_err(|c| c.msg))}));
-                    ok = false;
-                    break;
+        // "sessions": how many consecutive frames each writer emits before a new writer takes over on the same sink (an encoder restarted
+        // on a live feed): frame numbers then start again from 0 in the middle of the concatenation.  Absent: one writer per frame.
+        let sessions: Vec<usize> = a["sessions"].as_array().map(|v| v.iter().map(|x| x.as_u64().unwrap() as usize).collect()).unwrap_or_default();
+        struct Shared(std::rc::Rc<std::cell::RefCell<Vec<u8>>>);
+        impl std::io::Write for Shared {
+            fn write(&mut self, b: &[u8]) -> std::io::Result<usize> {
+                self.0.borrow_mut().extend_from_slice(b);
+                Ok(b.len())
+            }
+            fn flush(&mut self) -> std::io::Result<()> {
+                Ok(())
+            }
+        }
+        let specs = a["frames"].as_array().unwrap();
+        let mut at = 0usize;
+        let mut si = 0usize;
+        while at < specs.len() && ok {
+            let count = if sessions.is_empty() { 1 } else { sessions[si % sessions.len()].max(1) }.min(specs.len() - at);
+            si += 1;
+            let sink = std::rc::Rc::new(std::cell::RefCell::new(Vec::<u8>::new()));
+            let mut w = FlacStreamWriter::new(Shared(sink.clone()), stream_options(a["id"].as_u64().unwrap_or(0)));
+            for f in &specs[at..at + count] {
+                let rate = f["rate"].as_u64().unwrap() as u32;
+                let ch = f["channels"].as_u64().unwrap() as u8;
+                let bps = f["bps"].as_u64().unwrap() as u32;
+                let len = f["len"].as_u64().unwrap() as usize;
+                let mut r2 = Rng::new(f["seed"].as_u64().unwrap_or(1));
+                let samples = gen_pcm(f["signal"].as_str().unwrap_or("walk"), &mut r2, ch as usize, bps, len);
+                let before = sink.borrow().len();
+                let res = catch(|| w.write(rate, ch, bps, &samples).map_err(|e| e.to_string()));
+                match res {
+                    Ok(Ok(())) => {
+                        let out = sink.borrow()[before..].to_vec();
+                        frames.push(Written { bytes: out, samples, rate, channels: ch, bps })
+                    }
+                    other => {
+                        t.emit(json!({"ev": "writefail", "id": a["id"], "why": format!("{:?}", other.map_err(|c| c.msg))}));
+                        ok = false;
+                        break;
+                    }
                 }
             }
+            at += count;
         }
         if !ok {
             continue;
